@@ -53,3 +53,19 @@ let () =
       let ans = run_history (ver_z ver) (z_of_int kind) raw rep e ops in
       ok_v (List.map zs ans) (hist_tags args @ (if kind = 1 then ["generator"] else []))))
     ["C04"; "C07"; "C17"; "C13"; "C06"; "C14"]
+
+(* C05: Conc <base> g nops_1 op.. nops_2 op.. => ntok_1 answers_1 ...  - every goroutine must get its sequential answers *)
+let () = reg "C05" "Conc" (fun ver args _obs ->
+  let a = mk args in
+  let kind = kind_code (next a) in
+  let raw = next_list a next_z in
+  let rep = next_list a next_z in
+  let e = next_z a in
+  let g = next_int a in
+  let model = ref [] in
+  for _ = 1 to g do
+    let ops = parse_hops a in
+    let ans = run_history (ver_z ver) (z_of_int kind) raw rep e ops in
+    model := !model @ (string_of_int (List.length ans) :: List.map zs ans)
+  done;
+  ok_v !model ["concurrent"; "g" ^ string_of_int g])
